@@ -1,4 +1,4 @@
-"""Bounded stand-ins (thorough tier only).  Labelled bounded, never counted as proved.
+"""Bounded stand-ins (both tiers; entries marked thorough_only run in the thorough tier only).  Labelled bounded, never counted as proved.
 Each entry: name -> script under /verif/standins run by /venv/bin/python against /repo."""
 import json
 import os
@@ -8,13 +8,18 @@ ROOT = os.path.dirname(os.path.dirname(os.path.abspath(__file__)))
 REGISTRY = {}  # prop -> [(name, script, bound description)]
 
 
-def register(prop, name, script, bound):
+THOROUGH_ONLY = set()
+
+
+def register(prop, name, script, bound, thorough_only=False):
     REGISTRY.setdefault(prop, []).append((name, script, bound))
+    if thorough_only:
+        THOROUGH_ONLY.add(name)
 
 
 register("C09", "regions_vs_closed_form_oracle", "c09_c10_oracle.py C09", "scales 1e-4..1e2 x 6 cones x 6 random region pairs (rectangles and ellipsoids), margin > 1e-6*scale")
 register("C10", "rect_covered_vs_LP_oracle", "c09_c10_oracle.py C10", "scales 1e-4..1e2 x 6 cones x 6 random rectangle pairs, HiGHS LP oracle, margin > 1e-5*scale")
-register("C04", "exact_tail_sums", "c04_tails.py", "K in {1,5,200}, m in {2,3,6}, delta in {0.9,0.1,0.001}, rounds t <= 20000 (step upper bound), exact scipy tails")
+register("C04", "exact_tail_sums", "c04_tails.py", "K in {1,5,200}, m in {2,3,6}, delta in {0.9,0.1,0.001}, rounds t <= 20000 (step upper bound), exact scipy tails", thorough_only=True)
 register("C08", "two_design_failure_probability", "c08_pac.py", "theta in {45,60,90,120}, noise_var in {0.05,0.5,1,4}, eps in {0.2,1}, delta in {0.1,0.01}; union bound over facets")
 register("C12", "icecream_tangency_and_theta_90", "c12_icecream.py", "K in {3..12,16,32,64} x half-angles {5,20,45,60,85}; theta = 90 (one point)")
 register("C17", "optima_vs_certificates", "c17_optima.py", "11 bundled cones + 6 random cones in 2-4-D: alpha vs NNLS projection, u* KKT, beta = 1/alpha")
@@ -22,9 +27,11 @@ register("C15", "posterior_vs_closed_form", "c15_posterior.py", "d in {1,2,3}, m
 register("C20", "noise_sample_moments", "c20_moments.py", "2 random correlated factors, 2e5 draws each, 5-sigma bands")
 
 
-def run_for(prop, seed):
+def run_for(prop, seed, tier="thorough"):
     out = []
     for name, script, bound in REGISTRY.get(prop, []):
+        if tier != "thorough" and name in THOROUGH_ONLY:
+            continue
         env = dict(os.environ)
         env["PYTHONPATH"] = os.environ.get("PYVC_REPO", "/repo")
         env["VERIF_SEED"] = str(seed)
